@@ -87,6 +87,11 @@ def run(sid, checks):
     if rc != 0:
         print("patch does not apply to /repo:", out)
         return
+    saved = {}
+    for c in checks:
+        ev = os.path.join(ROOT, "evidence", c + ".json")
+        if os.path.exists(ev):
+            saved[ev] = open(ev).read()
     try:
         for c in checks:
             t = time.time()
@@ -98,6 +103,8 @@ def run(sid, checks):
             print("%s vs %s: exit=%d detected=%s %s" % (sid, c, rc, meta["checks"][c]["detected"], viol[:2]))
     finally:
         sh("git checkout -- .", cwd="/repo")
+        for ev, txt in saved.items():      # evidence must describe the unchanged tree, not the seeded one
+            open(ev, "w").write(txt)
     json.dump(meta, open(os.path.join(dst, "meta.json"), "w"), indent=1)
 
 
